@@ -80,7 +80,7 @@ def run(pid, tier, seed):
     rng = random.Random(seed)
     sims = pipeline.generate(rep, "Launch_Gen", "Launch_Gen.cfg", 300 if tier == "quick" else 3000, 18, seed, allvars=True)
     jobs = [(st["hist"], st["dirKind"]) for st in sims]
-    jobs += [(rand_script(rng), rng.choice(["temp", "user", "cfg"])) for _ in range(400 if tier == "quick" else 5000)]
+    jobs += [(rand_script(rng), rng.choice(["temp", "user", "cfg", "usernew"])) for _ in range(400 if tier == "quick" else 5000)]
     traces, seen = [], set()
     for s, dk in jobs:
         traces.append(la.replay(s, dk))
